@@ -4,7 +4,7 @@ random.Random(f"{prop}-{seed}-{shard}")."""
 import random
 
 TARGETS = ["c", "csub", "cwrap"]
-KINDS = ["int", "str", "obj", "int", "str", "obj", "isub", "ssub"]
+KINDS = ["int", "str", "obj", "int", "str", "obj", "isub", "ssub", "ustr", "wstr", "mstr"]
 
 
 class HistC:
